@@ -500,7 +500,8 @@ def r4_fallbacks(rep, src, g):
     if len(idx_try) != 1:
         raise AnalysisError('%s: index download try-block not found' % f.site)
     HIER = {'IOError': {'IOError', 'OSError', 'EnvironmentError', 'Exception', 'BaseException'}, 'ParseError': {'ParseError', 'Exception', 'BaseException'},
-            'UnicodeDecodeError': {'UnicodeDecodeError', 'UnicodeError', 'ValueError', 'Exception', 'BaseException'}}
+            'UnicodeDecodeError': {'UnicodeDecodeError', 'UnicodeError', 'ValueError', 'Exception', 'BaseException'},
+            'ValueError': {'ValueError', 'Exception', 'BaseException'}}
 
     def handler_names(h):
         if h.type is None:
@@ -576,6 +577,33 @@ def r4_fallbacks(rep, src, g):
             rep.fail('C19.R4', f.site, what, ('an absent/unreadable local file does not lead to a full download' if k == 'IOError' else
                                                'a local file that is not valid text in the expected encoding makes the read raise UnicodeDecodeError, which no handler turns into a '
                                                'full download: the update fails on every call until the file is removed by hand'), where=f.where)
+    # a patch that is what the index says (hash verified) but that the ed reader refuses -- a command other than a / c / d, such as the
+    # "s/.//" that diff -e writes after a text line consisting of a dot -- is one more input update_file cannot use: every call of a
+    # function of the module that raises ValueError itself (the reader, the applier) sits in a try whose handler for ValueError ends
+    # in the full download
+    mod_ = f.module
+    n_vr = 0
+    for c in [c for c in ast.walk(f.node) if isinstance(c, ast.Call) and isinstance(c.func, ast.Name) and c.func.id in mod_.funcs and c.func.id not in closures]:
+        callee = mod_.funcs[c.func.id]
+        if not any(isinstance(r_, ast.Raise) and r_.exc is not None and norm(r_.exc).startswith('ValueError') for r_ in ast.walk(callee.node)):
+            continue
+        n_vr += 1
+        rep.saw_func(callee)
+        what = 'a patch the reader refuses → full download: %s()' % c.func.id
+        tries = [a for a in _ancestors(c) if isinstance(a, ast.Try) and any(c in list(ast.walk(b_)) for b_ in a.body)]
+        okv = False
+        for t in tries:
+            for h in t.handlers:
+                if handler_names(h) & HIER['ValueError'] and falls_back(h, t):
+                    okv = True
+        if okv:
+            rep.ok('C19.R4', f.site, what, 'except ValueError: return download_file', nontrivial=False)
+        else:
+            rep.fail('C19.R4', f.site, what, '%s raises ValueError for a script it cannot use and the call is not inside a handler that turns that into the full download: a '
+                     'history in which a line is a single "." (diff -e then writes "..", ".", "s/.//") makes update_file raise on every call from that version, with a correct '
+                     'index and no fault, while an unknown or absent local copy is updated from the same repository' % c.func.id, where='%s:%d' % (f.module.relpath, c.lineno))
+    if n_vr < 1:
+        raise AnalysisError('%s: no call of a function that raises ValueError (the ed reader / applier) found' % f.site)
     # implicit exceptions while interpreting the index: unguarded tuple unpacking of split(), unguarded dict subscripts, unbound locals
     for n in g.stmts():
         if n.kind == 'stmt' and isinstance(n.ast, ast.Assign) and isinstance(n.ast.targets[0], ast.Tuple):
